@@ -103,17 +103,17 @@ def _generate(ctx, rng):
             n += 1
             yield ("region", n), _tok_case(rng, pos="first", size=2, region=region)
     yield ("badpw", 0), {**_tok_case(rng, pos="first", size=1), "wrong_password": True}
-    for j in range(1200 if quick else 60000):
+    for j in range(1200 if quick else 300000):
         c = _tok_case(rng, pos=rng.choice(["absent", "first", "middle", "last", "only"]), size=rng.randint(1, 9))
         if rng.random() < 0.3:
             c["stage_faults"] = {str(rng.randrange(3)): [rng.choice(FAULTS + MORE_FAULTS + [None]) for _ in range(rng.randint(1, 3))]}
         yield ("rnd", j), c
     # several lookups in flight on ONE cloud object, the server listing every registered entry in each answer
-    for j in range(60 if quick else 3000):
+    for j in range(60 if quick else 15000):
         yield ("concurrent-tokens", j), {"kind": "concurrent-tokens", "n": rng.randint(2, 5), "cred": _cred(rng), "cseed": rng.getrandbits(32),
                                          "latency": rng.choice([0.0, 0.1, 0.5])}
     # several V3 devices discovered in one run (authenticated concurrently through one shared cloud object)
-    for j in range(25 if quick else 1200):
+    for j in range(25 if quick else 6000):
         nd = rng.randint(2, 4)
         yield ("e2e-multi", j), {"kind": "e2e-multi", "ids": [rng.getrandbits(48) | 1 for _ in range(nd)],
                                  "endians": [rng.choice(["little", "big"]) for _ in range(nd)], "cred": _cred(rng), "cseed": rng.getrandbits(32)}
@@ -123,13 +123,13 @@ def _generate(ctx, rng):
         yield ("e2e-zero", j), {"kind": "e2e", "id": did, "endian": endian, "token": rng.randbytes(64), "key": rng.randbytes(32), "cred": _cred(rng),
                                 "mode": "broadcast" if j % 2 else "single", "others": 0}
     # several V3 devices connected one after the other while the cloud has a transient fault during the first login
-    for j in range(40 if quick else 1500):
+    for j in range(40 if quick else 7500):
         nd = rng.randint(2, 3)
         yield ("e2e-connect", j), {"kind": "e2e-connect", "ids": [rng.getrandbits(48) | 1 for _ in range(nd)],
                                    "endians": [rng.choice(["little", "big"]) for _ in range(nd)], "cred": _cred(rng),
                                    "faults": [rng.choice(FAULTS)] * rng.choice([1, 1, 2, 3]), "cseed": rng.getrandbits(32),
                                    "fault_stage": rng.choice([0, 1])}
-    for j in range(60 if quick else 2500):
+    for j in range(60 if quick else 12500):
         yield ("e2e", j), {"kind": "e2e", "id": rng.getrandbits(48) | 1, "endian": rng.choice(["little", "big"]), "token": rng.randbytes(64),
                            "key": rng.randbytes(32), "cred": _cred(rng), "mode": rng.choice(["broadcast", "single"]), "others": rng.randint(0, 2)}
 
